@@ -675,6 +675,13 @@ class Interp:
             return self.truth_sym(s[2][0])
         if s[0] in ("tuple", "list", "set"):
             return len(s[1]) > 0
+        if s[0] == "call" and s[1] == N("isinstance") and len(s[2]) == 2 and not s[3] and s[2][1][0] == "tuple" and s[2][1][1]:
+            # isinstance(x, (A, B)) is isinstance(x, A) or isinstance(x, B): decided class by class, so that it relates to
+            # what a scenario (or an earlier test) says about the single classes
+            for c in s[2][1][1]:
+                if self.truth_sym(("call", N("isinstance"), (s[2][0], c), ())):
+                    return True
+            return False
         return self.decide(s)
 
     def decide(self, atom: Sym) -> bool:
